@@ -19,9 +19,17 @@ func (br *bodyRun) step(st *State, ins ssa.Instruction, b *ssa.BasicBlock, idx i
 					// light mode: abstract the instruction
 					fc.note("light mode: %s abstracted (%s)", insName(ins), string(u))
 					if v, ok := ins.(ssa.Value); ok {
-						fc.vals[v] = fc.freshTyped(st, v.Type(), v.Name())
+						func() {
+							defer func() {
+								if r2 := recover(); r2 != nil {
+									fc.vals[v] = Scalar{"0"}
+								}
+							}()
+							fc.vals[v] = fc.freshTyped(st, v.Type(), v.Name())
+						}()
 					}
-					if _, isStore := ins.(*ssa.Store); isStore {
+					switch ins.(type) {
+					case *ssa.Store, *ssa.Call, *ssa.MapUpdate:
 						fc.havocAll(st)
 					}
 					return
@@ -114,6 +122,14 @@ func (br *bodyRun) step(st *State, ins ssa.Instruction, b *ssa.BasicBlock, idx i
 		v := fc.val(x.Val)
 		if isUntypedNil(t) {
 			v = zeroVal(pt)
+		}
+		if p.Kind == PElem {
+			for _, wr := range br.writeRanges {
+				if wr.li.blocks[b] && wr.ref == p.Ref {
+					fc.oblige(st, and(app("bvsle", wr.lo, p.Idx), app("bvslt", p.Idx, wr.hi)),
+						br.prefix+fc.ordName(fmt.Sprintf("loop-modifies:%d", wr.li.ordinal), ""), "inv-keep", x.Pos(), "store stays inside the loop's modifies range")
+				}
+			}
 		}
 		fc.store(st, p, pt, fc.storable(pt, v))
 	case *ssa.Phi:
